@@ -1,5 +1,6 @@
 import OSProofs.Props.C05
 import OSProofs.Props.C05b
+import OSProofs.Props.C05c
 #print axioms OS.C05_same_direction
 #print axioms OS.C05_btPair_win_nonneg
 #print axioms OS.C05_btPair_loss_nonpos
@@ -17,3 +18,18 @@ import OSProofs.Props.C05b
 #print axioms OS.C05_two_team_draw_TM
 #print axioms OS.C05_identical_teams_BTF
 #print axioms OS.C05_identical_teams_TMF
+#print axioms OS.C05_rank_improve_full
+#print axioms OS.C05_exchange_full
+#print axioms OS.C05_identical_teams_PL_groups
+#print axioms OS.C05_identical_teams_PL
+#print axioms OS.C05_identical_teams_PL_tiefree
+#print axioms OS.C05_exchange_PL_groups
+#print axioms OS.C05_exchange_PL
+#print axioms OS.C05_exchange_PL_tiefree
+#print axioms OS.C05_exchange_full_game
+#print axioms OS.C05_exchange_PL_game
+#print axioms OS.C05_members_mono
+#print axioms OS.C05_all_identical_partial
+#print axioms OS.C05_all_identical_partial_BTP
+#print axioms OS.C05_identical_teams_PL_ties_false
+#print axioms OS.C05_exchange_PL_ties_false
